@@ -71,7 +71,7 @@ def cut_features(g, part, case):
     return f
 
 
-def random_cut_case(rng, max_heavy, kinds=('$', '><'), max_parts=6, mol_kw=None, render_opts=None, ctor=None, plain_names=False, allow_lower5=False, mode=None):
+def random_cut_case(rng, max_heavy, kinds=('$', '><'), max_parts=6, mol_kw=None, render_opts=None, ctor=None, plain_names=False, allow_lower5=False, mode=None, implicit_biaryl=0.0):
     ringy = rng.random() < 0.35 or mode is not None
     if ringy:
         kw = dict(p_ring=0.9, p_arom=rng.choice([0.2, 0.6]))
@@ -108,7 +108,9 @@ def random_cut_case(rng, max_heavy, kinds=('$', '><'), max_parts=6, mol_kw=None,
         # so its spelling has nodes that close several rings at once
         part = {n: i for i, n in enumerate(g.nodes)}
     nparts = max(part.values()) + 1
-    case = M.build_case(rng, g, part, kinds=kinds, render_opts=render_opts or {'explicit_single': rng.choice([0.0, 0.1]), 'desc_after_branch': rng.choice([0.0, 0.5, 0.9]), 'desc_in_parens': rng.choice([0.0, 0.0, 0.3]), 'non_dfs_tree': rng.choice([0.0, 0.0, 0.5])})
+    if implicit_biaryl and render_opts is not None:
+        render_opts = dict(render_opts, implicit_biaryl=implicit_biaryl)
+    case = M.build_case(rng, g, part, kinds=kinds, render_opts=render_opts or {'implicit_biaryl': implicit_biaryl, 'explicit_single': rng.choice([0.0, 0.1]), 'desc_after_branch': rng.choice([0.0, 0.5, 0.9]), 'desc_in_parens': rng.choice([0.0, 0.0, 0.3]), 'non_dfs_tree': rng.choice([0.0, 0.0, 0.5])})
     if case is None:
         return None
     ast, pre = M.base_to_ast(rng, case['base'])
@@ -138,7 +140,7 @@ def random_cut_case(rng, max_heavy, kinds=('$', '><'), max_parts=6, mol_kw=None,
     if rng.random() < 0.08:
         # a second, different definition under a name that is already defined earlier in the block: the first one counts
         decoy = (rng.choice(items)[0], rng.choice(['C', 'CC[$]', 'O[$zz]', 'N#C']))
-    smiles = M.molecule_smiles(rng, g)
+    smiles = M.molecule_smiles(rng, g, opts={'implicit_biaryl': implicit_biaryl} if implicit_biaryl else None)
     ctor = ctor or rng.choice(['string', 'string', 'string', 'from_graph', 'from_fragment_dicts'])
     alt = [G.to_string(M.base_to_ast(rng, case['base'])[0]) for _ in range(2)] if len(case['base']) >= 3 else []
     base_nodes = list(case['base'].nodes)
@@ -166,7 +168,64 @@ def random_cut_case(rng, max_heavy, kinds=('$', '><'), max_parts=6, mol_kw=None,
                 base_order=pre, atom_annotations=atom_annotations)
     if atom_annotations:
         out['features'] = sorted(set(out['features']) | {'annotated_fragment_atoms'} | ({'annotated_single_atom_fragment'} if any(len(case['atom_orders'][k.split('|')[0]]) == 1 for k in atom_annotations) else set()))
+    if not atom_annotations and not decoy and not names:
+        sib = descriptor_moved_sibling(g, part, case, items)
+        if sib is not None:
+            out['sibling'] = sib
+            out['features'] = sorted(set(out['features']) | {'followed_by_the_same_text_with_a_descriptor_on_another_atom'})
     return rename_fragments(out, names) if names else out
+
+
+def descriptor_moved_sibling(g, part, case, items):
+    """A second input that differs from the case ONLY in the atom one single-bond descriptor sits on: same fragment names,
+    same atoms in the same spelling, same descriptor texts.  It denotes another molecule (the cut bond now ends on the
+    other atom); resolved right after the first one it must give that molecule.  Drawn with a generator of its own (seeded
+    by the text) so that the main stream of cases is unchanged."""
+    import random as _r
+    srng = _r.Random(str(items))
+    if srng.random() > 0.35:
+        return None
+    plain = lambda n: not g.nodes[n].get('aromatic') and not g.nodes[n].get('lower') and g.nodes[n]['charge'] == 0
+    cand = []
+    for (a, b, lab, oo) in case['cuts']:
+        for x, y in ((a, b), (b, a)):
+            if oo != 1 or not plain(x):
+                continue
+            for x2 in case['members'][part[x]]:
+                if x2 != x and plain(x2) and g.nodes[x2]['hcount'] >= 1 and x2 not in case['desc']:
+                    cand.append((x, y, lab, x2))
+    srng.shuffle(cand)
+    for x, y, lab, x2 in cand:
+        name = 'F%d' % part[x]
+        toks = list(case['tokens'][name])
+        k = next((i for i, t in enumerate(toks) if t[0] == 'desc' and t[2] == x and t[3][1] == lab), None)
+        ax = next((i for i, t in enumerate(toks) if t[0] == 'atom' and t[2] == x), None)
+        if k is None or ax is None or k < ax or not toks[k][1].endswith(']') or not toks[k][1].startswith('['):
+            continue        # leading descriptor or one with a bond symbol: leave those alone
+        if k > 0 and toks[k - 1] == ('open',):
+            continue        # descriptor written as a branch of its own
+        tok = toks.pop(k)
+        a2 = next(i for i, t in enumerate(toks) if t[0] == 'atom' and t[2] == x2)
+        j = a2 + 1
+        while j < len(toks) and toks[j][0] in ('ring', 'desc') and toks[j][2] == x2:
+            j += 1
+        toks.insert(j, ('desc', tok[1], x2, tok[3]))
+        g2 = g.copy()
+        attrs = dict(g2.edges[x, y])
+        g2.remove_edge(x, y)
+        if g2.has_edge(x2, y):
+            continue
+        g2.add_edge(x2, y, **attrs)
+        hs = {n: M.hcount_for(g2.nodes[n]['element'], g2.nodes[n]['charge'], M.used(g2, n)) for n in (x, x2)}
+        if None in hs.values() or not M.dime_safe(g2):
+            continue
+        for n, h in hs.items():
+            g2.nodes[n]['hcount'] = h
+        frags = dict(items)
+        frags[name] = M.tokens_text(toks)
+        return dict(frag_string='{' + ','.join('#%s=%s' % (nm, frags[nm]) for nm, _ in items) + '}', truth=truth_to_json(M.truth_graph(g2)),
+                    moved=f'descriptor {tok[1]} of {name} from atom {x} to atom {x2}')
+    return None
 
 
 
@@ -252,6 +311,14 @@ def make_resolver(case, on_dicts=None, **kw):
         dicts = []
         for i, blk in enumerate(blocks):
             dicts.append(cgsmiles.read_fragments(blk, all_atom=(i == len(blocks) - 1 and last_all_atom)))
+        from .. import contracts as _c
+        if _c.CONTEXT.get('fragment_keys_with_gaps') and not case.get('atom_annotations') and not any(
+                'ez_isomer' in str(dd) for d_ in dicts for g_ in d_.values() for _, dd in g_.nodes(data=True)):
+            # a caller's own fragment graphs need not be keyed 0..n-1 (a node was removed, atoms are numbered as in a
+            # coordinate file): the same graphs under increasing keys with gaps
+            for d_ in dicts:
+                for name_ in list(d_):
+                    d_[name_] = nx.relabel_nodes(d_[name_], {k: 2 * k + 3 for k in d_[name_].nodes}, copy=True)
         if on_dicts:
             on_dicts(dicts)
         return MoleculeResolver.from_fragment_dicts(case['base_string'], dicts, **kw)
@@ -913,6 +980,36 @@ def _execute(case):
     except Exception as err:
         return dict(error=f'{type(err).__name__}: {err}', steps=[], rejected=None)
     return dict(error=None, steps=steps, rejected=None)
+
+
+def scribble_on_fresh_parse(case):
+    """a caller parses the case's fragment blocks with read_fragments and edits what it got in place (descriptor lists
+    emptied, attributes overwritten, bonds removed, dictionary emptied): its own copies - a later, independent parse of
+    the same text must not notice; -> number of graphs edited"""
+    import re
+    import cgsmiles
+    text = case.get('string') or case.get('multi_string') or (case['base_string'] + '.' + case['frag_string'])
+    blocks = re.findall(r'\{[^}]*\}', text)[1:]
+    coarse_last = case.get('coarse') or case.get('coarse_last') or case.get('kind') == 'coarse_cut'
+    n = 0
+    for i, b in enumerate(blocks):
+        try:
+            lib = cgsmiles.read_fragments(b, all_atom=(i == len(blocks) - 1 and not coarse_last))
+        except Exception:
+            continue
+        for g in lib.values():
+            for _, d in g.nodes(data=True):
+                for v in d.values():
+                    if isinstance(v, list):
+                        v.clear()
+                    elif isinstance(v, dict):
+                        v.clear()
+                d['element'] = d['atomname'] = d['fragname'] = 'Xx'
+                d['weight'] = -7.0
+            g.remove_edges_from(list(g.edges))
+            n += 1
+        lib.clear()
+    return n
 
 
 def describe_case(case):
